@@ -52,16 +52,21 @@ Aligned(mis)          == mis = 0
 InRegion(lo, hi, reg) == reg # None => (reg[1][1] <= lo /\ hi <= reg[1][2])
 (* cap: None, or Some(bytes) - the capacity the pool states *)
 WithinCapacity(len, cap) == cap # None => InUse + len <= cap[1]
+(* span: None, or Some(bytes) - for a pool that owns ONE arena of cap bytes: the distance from the   *)
+(* lowest address to the highest end address of all blocks it has handed out so far (this one        *)
+(* included).  Everything the pool issues lies inside its arena, so the span cannot exceed cap.      *)
+WithinArena(span, cap) == (span # None /\ cap # None) => span[1] <= cap[1]
 Disjoint(lo, hi)      == ~OverlapsLive(lo, hi)
 
 (* allocate(req, align) -> Ok: block b = [lo, hi), len usable bytes, mis = address mod align *)
-AllocOk(b, req, len, align, mis, lo, hi, reg, cap) ==
+AllocOk(b, req, len, align, mis, lo, hi, reg, cap, span) ==
     /\ FreshId(b)
     /\ LongEnough(req, len)
     /\ WellFormed(lo, hi, len)
     /\ Aligned(mis)
     /\ InRegion(lo, hi, reg)
     /\ WithinCapacity(len, cap)
+    /\ WithinArena(span, cap)
     /\ Disjoint(lo, hi)
     /\ live' = With(b, Blk(lo, hi, req, len, align))
     /\ pend' = FALSE
